@@ -193,6 +193,7 @@ def run(ctx):
     independent_handles(ctx)
     many_copies(ctx)
     assignment_scenarios(ctx)
+    F.cli_front(ctx, PID)
     ctx.cov["binding_selftest"] = F.selftest(ctx, PID)
 
 
